@@ -1102,3 +1102,318 @@ Qed.
 (* inside the rate limit the same fragment elicits nothing *)
 Lemma stale_fragment_rate_limited : snd (on_datagram stale_cfg stale_state stale_dgram 300) = [].
 Proof. vm_compute. reflexivity. Qed.
+
+(* ---------- no zero-delay ping-pong (e875bea) ---------- *)
+
+Definition is_hs_rec (r : rec) : bool := match r_body r with Hs _ _ _ _ _ => true | Ack _ => false end.
+Definition has_hs (out : list dgram) : bool := existsb (existsb is_hs_rec) out.
+
+(* how far the handshake has got: the flight number while waiting, 7 once finished *)
+Definition stage (e : ep) : N := match e_fst e with Finished => 7 | Waiting => e_flight e end.
+
+Lemma has_hs_app a b : has_hs (a ++ b) = has_hs a || has_hs b.
+Proof. unfold has_hs. apply existsb_app. Qed.
+Lemma has_hs_ack epo fs : has_hs (ack_dgram epo fs) = false.
+Proof. destruct fs; reflexivity. Qed.
+
+(* the endpoint sent something less than half an initial interval ago *)
+Definition recent (c : cfg) (e : ep) (now : N) : Prop := 2 * (now - e_lastsent e) < c_initial c.
+
+(* a step that neither re-sends nor goes back: the clock of the last transmission is kept or set to
+   now, the stage does not decrease, and handshake records are emitted only when it increases *)
+Definition ok_step (e : ep) (now : N) (r : ep * list dgram) : Prop :=
+  (e_lastsent (fst r) = e_lastsent e \/ e_lastsent (fst r) = now) /\
+  stage e <= stage (fst r) /\ (has_hs (snd r) = true -> stage e < stage (fst r)) /\
+  stage (fst r) <= N.max (stage e) 7.
+
+Lemma ok_step_same e now e' :
+  e_lastsent e' = e_lastsent e -> stage e' = stage e -> forall o, has_hs o = false -> ok_step e now (e', o).
+Proof.
+  intros H1 H2 o Ho. unfold ok_step. cbn [fst snd]. rewrite H1, H2, Ho.
+  split; [auto|]. split; [lia|]. split; [discriminate | lia].
+Qed.
+
+Lemma after_ack_recent c e peer now :
+  recent c e now -> after_ack c e false false peer now = (e, []).
+Proof.
+  unfold recent, after_ack. intro Hr. cbn [andb orb negb].
+  assert (H : 2 * (now - e_lastsent e) <? c_initial c = true) by (apply N.ltb_lt; exact Hr).
+  rewrite H. destruct peer; cbn [andb]; [|reflexivity]. destruct (e_reply e); reflexivity.
+Qed.
+
+Lemma to_finished_fst c e now : e_fst (fst (to_finished c e now)) = Finished.
+Proof. unfold to_finished. cbv zeta. cbn [e_nstinit e_client set_fsm]. repeat dif; reflexivity. Qed.
+
+Lemma to_finished_stage c e now :
+  stage (fst (to_finished c e now)) = 7 /\ e_lastsent (fst (to_finished c e now)) = e_lastsent e.
+Proof. unfold to_finished. cbv zeta. cbn [e_nstinit e_client set_fsm]. repeat dif; unfold stage; cbn; auto. Qed.
+
+Lemma to_finished_client c e now : e_client e = true -> snd (to_finished c e now) = [].
+Proof.
+  intro Hc. unfold to_finished. cbv zeta. cbn [e_nstinit e_client set_fsm].
+  destruct (e_nstinit e); [reflexivity|]. rewrite Hc. reflexivity.
+Qed.
+
+Lemma last_send_is_F5 c f : flags_cfg c -> fl_last_send c f = true -> f = F5.
+Proof.
+  unfold flags_cfg, fl_last_send. intros -> H. unfold g13_flags in H. cbn [flags_of] in H.
+  repeat match type of H with context [N.eqb f ?k] => destruct (N.eqb_spec f k); [subst; try discriminate; try reflexivity|] end.
+  discriminate.
+Qed.
+
+Lemma stage_le_7 e : e_flight e <= 6 -> stage e <= 7.
+Proof. unfold stage. destruct (e_fst e); lia. Qed.
+
+(* what do_send leaves: the same flight, WAITING, sent now - or FINISHED *)
+Lemma do_send_stage c e now :
+  e_fst e = Waiting ->
+  e_lastsent (fst (do_send c e now)) = now /\
+  (stage (fst (do_send c e now)) = e_flight e \/ stage (fst (do_send c e now)) = 7).
+Proof.
+  intro Hw. destruct (do_send_shape c e now) as (e3 & Hs & Heq). rewrite Heq.
+  destruct Hs as (_&Hf&Hst&_&_&Hl&_).
+  dif; cbn [fst].
+  - destruct (to_finished_stage c e3 now) as [H1 H2]. destruct (to_finished c e3 now). cbn [fst] in *.
+    split; [congruence | right; exact H1].
+  - split; [exact Hl|]. left. unfold stage. rewrite Hst. exact Hf.
+Qed.
+
+(* the parsers only move forward *)
+Lemma parse_next c e :
+  snd (parse c e) = 0 \/ (e_flight e < snd (parse c e) /\ snd (parse c e) <= 6) \/
+  (e_client e = false /\ e_flight e = F4 /\ snd (parse c e) = F4).
+Proof.
+  assert (H3 : forall x, snd (parse_c3 x) = 0 \/ snd (parse_c3 x) = F5).
+  { intro x. unfold parse_c3. repeat (dif; cbn [snd]); auto;
+      destruct (pull_seq _ _ _ _); cbn [snd]; auto. }
+  unfold parse. cbn zeta.
+  destruct (e_client e) eqn:Ec.
+  - destruct (N.eqb_spec (e_flight e) F1) as [E1 | E1].
+    + rewrite E1. repeat (dif; cbn [snd]); auto;
+        try (destruct (H3 e) as [H | H]; rewrite H; [left; reflexivity | right; left; cbv; split; [reflexivity | discriminate]]).
+      right. left. cbv. split; [reflexivity | discriminate].
+    + destruct (N.eqb_spec (e_flight e) F3) as [E2 | E2]; [|left; reflexivity].
+      rewrite E2. destruct (H3 e) as [H | H]; rewrite H; [left; reflexivity | right; left; cbv; split; [reflexivity | discriminate]].
+  - destruct (N.eqb_spec (e_flight e) F0) as [E0 | E0].
+    + rewrite E0. dif; cbn [snd]; [|auto]. right. left. dif; cbv; split; (reflexivity || discriminate).
+    + destruct (N.eqb_spec (e_flight e) F2) as [E2 | E2].
+      * rewrite E2. dif; cbn [snd]; [|auto]. right. left. cbv; split; (reflexivity || discriminate).
+      * destruct (N.eqb_spec (e_flight e) F4) as [E4 | E4]; [|left; reflexivity].
+        destruct (pull_seq e 2 (e_recvseq e) rules_client_final); cbn [snd]; auto.
+Qed.
+
+Lemma same_fsm_stage a b : same_fsm a b -> stage a = stage b /\ e_lastsent a = e_lastsent b /\ e_flight a = e_flight b.
+Proof. intros (_&Hf&Hs&_&_&Hl&_). unfold stage. rewrite Hs, Hf. auto. Qed.
+
+Lemma acknowledge_keeps e acks :
+  let e' := fst (fst (acknowledge e acks)) in
+  stage e' = stage e /\ e_lastsent e' = e_lastsent e /\ e_flight e' = e_flight e /\ e_fst e' = e_fst e /\
+  e_client e' = e_client e.
+Proof. unfold acknowledge, stage; cbn. auto. Qed.
+
+(* an ACK makes progress only if it acknowledges a fragment that is still pending *)
+Lemma acknowledge_progress e acks :
+  snd (acknowledge e acks) = true -> exists f, In f (concat acks) /\ fmem f (e_pending e) = true.
+Proof.
+  unfold acknowledge. cbn [snd].
+  destruct (filter (fun f => fmem f (e_pending e)) (concat acks)) as [|f l] eqn:E; [discriminate|]. intros _.
+  assert (Hin : In f (filter (fun f => fmem f (e_pending e)) (concat acks))) by (rewrite E; now left).
+  apply filter_In in Hin. exists f. exact Hin.
+Qed.
+
+Lemma acknowledge_empty e acks :
+  Forall (fun a => a <> []) acks -> snd (fst (acknowledge e acks)) = false.
+Proof.
+  unfold acknowledge. cbn [fst snd]. intro H. induction H as [|a l Ha Hl IH]; [reflexivity|].
+  cbn [existsb]. destruct a; [congruence | exact IH].
+Qed.
+
+(* the core: within half an initial interval of its last transmission, an event that brings no ACK
+   progress (and no empty ACK) makes a waiting endpoint re-send nothing - it emits handshake
+   records only by moving on to a later flight (or finishing) *)
+Lemma on_event_recent c e hs (retr : bool) acks rta now :
+  flags_cfg c -> e_fst e = Waiting -> recent c e now ->
+  snd (fst (acknowledge (if retr then e else set_interval e (c_initial c)) acks)) = false ->
+  snd (acknowledge (if retr then e else set_interval e (c_initial c)) acks) = false ->
+  ok_step e now (on_event c e hs retr acks rta now).
+Proof.
+  intros Hfl Hw Hrec Hemp Hprog.
+  destruct (hrr_flags c Hfl) as (_&_&_&_&_&Hl4).
+  unfold on_event. rewrite Hw.
+  set (e1 := if retr then e else set_interval e (c_initial c)) in *.
+  assert (K1 : stage e1 = stage e /\ e_lastsent e1 = e_lastsent e /\ e_flight e1 = e_flight e /\ e_fst e1 = Waiting /\
+               e_client e1 = e_client e).
+  { subst e1. destruct retr; unfold stage; cbn; rewrite ?Hw; auto. }
+  pose proof (acknowledge_keeps e1 acks) as K2.
+  destruct (acknowledge e1 acks) as [[e2 empty] progress]. cbn [fst snd] in *. subst empty progress.
+  destruct K1 as (S1&L1&F1'&W1&C1). destruct K2 as (S2&L2&F2'&W2&C2).
+  assert (Hrec2 : recent c e2 now) by (unfold recent in *; rewrite L2, L1; exact Hrec).
+  assert (Hst2 : stage e2 = stage e) by congruence.
+  assert (Hls2 : e_lastsent e2 = e_lastsent e) by congruence.
+  destruct (negb hs && _).
+  { rewrite (after_ack_recent c e2 false now Hrec2). now apply ok_step_same. }
+  destruct (hs && retr && fl_last_send c (e_flight e2)).
+  { rewrite (after_ack_recent c e2 true now Hrec2). apply ok_step_same; auto.
+    rewrite has_hs_app, has_hs_ack. reflexivity. }
+  destruct (hs && e_client e2 && fl_last_send c (e_flight e2) && negb (has_post e2)).
+  { apply ok_step_same; auto. apply has_hs_ack. }
+  destruct (hs && e_client e2 && fl_last_send c (e_flight e2)) eqn:Ec.
+  { set (e3 := set_fsm e2 _ _ _ _ _ _ _ _ _ _).
+    assert (Hc3 : e_client e3 = true).
+    { subst e3. cbn. apply andb_prop in Ec. destruct Ec as [Ec _]. apply andb_prop in Ec. tauto. }
+    destruct (to_finished_stage c e3 now) as [T1 T2]. pose proof (to_finished_fst c e3 now) as T0.
+    pose proof (to_finished_client c e3 now Hc3) as T3.
+    destruct (to_finished c e3 now) as [e4 o4]. cbn [fst snd] in *. subst o4.
+    destruct (post_receive_shape c e4 hs acks rta) as (P1&_&_&_&_&_&(epo & fs & P7)).
+    pose proof (post_receive_interval c e4 hs acks rta) as _.
+    assert (P8 : e_lastsent (fst (post_receive c e4 hs acks rta)) = e_lastsent e4).
+    { unfold post_receive. cbn [fst]. set (x := set_nst _ _ _ _ _).
+      assert (Hx : forall n y, e_lastsent (consume_nst n y) = e_lastsent y).
+      { induction n as [|n IH]; intro y; cbn [consume_nst]; [reflexivity|]. dif; [rewrite IH|]; reflexivity. }
+      set (y := if hs && e_client x then consume_nst 8 x else x).
+      transitivity (e_lastsent y); [reflexivity|]. subst y. dif; [rewrite Hx|]; reflexivity. }
+    destruct (post_receive c e4 hs acks rta) as [e5 o5]. cbn [fst snd] in *.
+    unfold ok_step. cbn [fst snd app].
+    assert (S5 : stage e5 = 7).
+    { unfold stage. rewrite P1, T0. reflexivity. }
+    split; [left; rewrite P8, T2; subst e3; cbn; exact Hls2|].
+    assert (Hle : stage e <= 7).
+    { rewrite <- Hst2. unfold stage. rewrite W2, W1.
+      apply andb_prop in Ec. destruct Ec as [_ Ec]. rewrite (last_send_is_F5 c _ Hfl Ec). cbv. discriminate. }
+    split; [rewrite S5; exact Hle|].
+    split; [rewrite P7, has_hs_ack; discriminate | lia]. }
+  pose proof (same_fsm_parse c e2) as Hp. pose proof (parse_next c e2) as Hn.
+  destruct (parse c e2) as [e3 nxt]. cbn [fst snd] in *.
+  destruct (same_fsm_stage e2 e3 Hp) as (S3&L3&F3').
+  assert (Hrec3 : recent c e3 now) by (unfold recent in *; rewrite <- L3; exact Hrec2).
+  destruct (N.eqb_spec nxt 0) as [E0 | E0].
+  { rewrite (after_ack_recent c e3 retr now Hrec3). apply ok_step_same; try congruence.
+    rewrite has_hs_app, has_hs_ack. reflexivity. }
+  assert (W3 : e_fst e3 = Waiting) by (destruct Hp as (_&_&Hs&_); congruence).
+  destruct Hn as [Hn | [[Hn1 Hn2] | (Hn1&Hn2&Hn3)]]; [congruence | |].
+  - (* a later flight *)
+    assert (Hne : N.eqb nxt (e_flight e3) = false) by (apply N.eqb_neq; rewrite <- F3'; lia).
+    rewrite Hne, andb_false_r. cbn [andb].
+    unfold enter. set (e0 := set_fsm _ nxt _ _ _ _ _ _ _ _ _).
+    assert (W0 : e_fst e0 = Waiting) by reflexivity.
+    destruct (do_send_stage c e0 now W0) as [D1 D2].
+    unfold ok_step. split; [right; exact D1|].
+    assert (Hlt : stage e < stage (fst (do_send c e0 now))).
+    { rewrite <- Hst2. unfold stage at 1. rewrite W2, W1.
+      destruct D2 as [D2 | D2]; rewrite D2; [subst e0; cbn; lia | lia]. }
+    split; [lia|]. split; [intros _; exact Hlt|].
+    destruct D2 as [D2 | D2]; rewrite D2; [subst e0; cbn; lia | lia].
+  - (* the server received the client's final flight *)
+    assert (Hc3 : e_client e3 = false) by (destruct Hp as (Hc&_); congruence).
+    rewrite Hc3, Hn3, <- F3', Hn2, Hl4. change (N.eqb F4 F4) with true. cbn [negb andb].
+    set (e4 := drain _).
+    assert (H4 : same_fsm e3 e4).
+    { subst e4. eapply same_fsm_trans; [apply same_fsm_set_epochs | apply same_fsm_drain]. }
+    destruct (same_fsm_stage e3 e4 H4) as (S4&L4&_).
+    destruct (to_finished_stage c e4 now) as [T1 T2].
+    destruct (to_finished c e4 now) as [e5 o5]. cbn [fst snd] in *.
+    unfold ok_step. cbn [fst snd].
+    assert (Hlt : stage e < stage e5).
+    { rewrite T1, <- Hst2. unfold stage. rewrite W2, W1, Hn2. cbv. reflexivity. }
+    split; [left; congruence|]. split; [lia|]. split; [intros _; exact Hlt | lia].
+Qed.
+
+(* C17: within half an initial interval of its last transmission a waiting endpoint answers a
+   datagram with handshake records only if the datagram makes real progress: it lets the endpoint
+   move on to a later flight (or finish), or it acknowledges a fragment that was still pending.
+   (No ACK with an empty record list: the implementation never sends one, and forging one needs
+   the keys.)  A repetition by the peer, however often it comes, is not answered. *)
+Theorem reanswer_needs_progress c e d now :
+  flags_cfg c -> e_fst e = Waiting -> recent c e now ->
+  Forall (fun a => a <> []) (snd (process_records true e d)) ->
+  has_hs (snd (on_datagram c e d now)) = true ->
+  stage e < stage (fst (on_datagram c e d now)) \/
+  exists f, In f (concat (snd (process_records true e d))) /\ fmem f (e_pending e) = true.
+Proof.
+  intros Hfl Hw Hrec Hne. unfold on_datagram.
+  pose proof (same_fsm_process_records true d e) as Hs.
+  destruct (process_records true e d) as [[[e1 hs] retr] acks]. cbn [fst snd] in *.
+  dif; cbn [fst snd]; [discriminate|].
+  set (e1' := set_toack e1 []).
+  assert (Hs' : same_fsm e e1') by (eapply same_fsm_trans; [exact Hs | apply same_fsm_set_toack]).
+  destruct (same_fsm_stage e e1' Hs') as (S1&L1&_).
+  assert (Hw1 : e_fst e1' = Waiting) by (destruct Hs' as (_&_&H&_); congruence).
+  assert (Hrec1 : recent c e1' now) by (unfold recent in *; rewrite <- L1; exact Hrec).
+  set (e2 := if retr then e1' else set_interval e1' (c_initial c)).
+  destruct (snd (acknowledge e2 acks)) eqn:Ep.
+  - intros _. right. destruct (acknowledge_progress e2 acks Ep) as (f & Hf1 & Hf2). exists f. split; [exact Hf1|].
+    replace (e_pending e) with (e_pending e2); [exact Hf2|].
+    subst e2. destruct Hs' as (_&_&_&_&_&_&_&_&_&Hp&_). destruct retr; cbn; congruence.
+  - intro Hh. left.
+    pose proof (on_event_recent c e1' hs retr acks (e_toack e1) now Hfl Hw1 Hrec1 (acknowledge_empty e2 acks Hne) Ep)
+      as (_ & _ & Hlt & _).
+    rewrite S1. apply Hlt. exact Hh.
+Qed.
+
+(* a datagram without ACK records *)
+Definition ack_free (d : dgram) : bool := forallb is_hs_rec d.
+
+Lemma process_record_ack_free l e r : is_hs_rec r = true -> snd (process_record l e r) = None.
+Proof.
+  unfold is_hs_rec, process_record. destruct (r_body r) as [ht m fo fl tl | fs]; [|discriminate]. intros _.
+  repeat (dif; cbn [snd]); try reflexivity.
+  all: destruct (push e (m, ht, fo, fl, tl, r_ep r)); try dif; reflexivity.
+Qed.
+
+Lemma process_records_ack_free l d : forall e, ack_free d = true -> snd (process_records l e d) = [].
+Proof.
+  induction d as [|r d IH]; intros e H; cbn [process_records]; [reflexivity|].
+  cbn [ack_free forallb] in H. apply andb_prop in H. destruct H as [H1 H2].
+  pose proof (process_record_ack_free l e r H1) as Hn.
+  destruct (process_record l e r) as [[[e1 h1] r1] a1]. cbn [snd] in Hn. subst a1.
+  specialize (IH e1 H2). destruct (process_records l e1 d) as [[[e2 h2] r2] a2]. cbn [snd] in *. exact IH.
+Qed.
+
+(* C17, the zero-delay ping-pong is impossible: whatever handshake datagrams (no ACKs) arrive, in
+   whatever number, within a window shorter than half an initial interval that starts no earlier
+   than the endpoint's last transmission, the endpoint emits handshake records in at most
+   7 - stage steps (each of them moves it to a later flight): two endpoints that take each other's
+   flights for retransmissions cannot answer each other without end *)
+Definition in_window (c : cfg) (T : N) (i : input) : Prop :=
+  match i with
+  | IDgram d now => ack_free d = true /\ T <= now /\ 2 * (now - T) < c_initial c
+  | ITimer => False
+  end.
+
+Definition count_hs (tr : list (input * list dgram)) : nat := length (filter (fun p => has_hs (snd p)) tr).
+
+Theorem no_zero_delay_ping_pong c T ins : flags_cfg c -> forall e,
+  Forall (in_window c T) ins -> stage e <= 7 -> (e_fst e = Waiting -> T <= e_lastsent e) ->
+  N.of_nat (count_hs (snd (run c e ins))) + stage e <= 7.
+Proof.
+  intro Hfl. induction ins as [|i ins IH]; intros e Hall Hst Hls; [cbn; lia|].
+  inversion Hall as [|i' ins' Hi Hrest]; subst.
+  destruct i as [d now|]; [|destruct Hi]. destruct Hi as (Haf & Hn1 & Hn2).
+  cbn [run step].
+  assert (Hstep : let r := on_datagram c e d now in
+                  stage e <= stage (fst r) /\ (has_hs (snd r) = true -> stage e < stage (fst r)) /\
+                  stage (fst r) <= 7 /\ (e_fst (fst r) = Waiting -> T <= e_lastsent (fst r))).
+  { destruct (e_fst e) eqn:Ef.
+    - assert (Hrec : recent c e now) by (unfold recent; specialize (Hls eq_refl); lia).
+      unfold on_datagram.
+      pose proof (same_fsm_process_records true d e) as Hs.
+      pose proof (process_records_ack_free true d e Haf) as Hna.
+      destruct (process_records true e d) as [[[e1 hs] retr] acks]. cbn [fst snd] in *. subst acks.
+      destruct (same_fsm_stage e e1 Hs) as (S1&L1&_).
+      dif; cbn [fst snd].
+      + rewrite <- S1. split; [lia|]. split; [discriminate|]. split; [lia|]. intros _. rewrite <- L1. now apply Hls.
+      + set (e1' := set_toack e1 []).
+        assert (Hs' : same_fsm e e1') by (eapply same_fsm_trans; [exact Hs | apply same_fsm_set_toack]).
+        destruct (same_fsm_stage e e1' Hs') as (S2&L2&_).
+        assert (Hw1 : e_fst e1' = Waiting) by (destruct Hs' as (_&_&H&_); congruence).
+        assert (Hrec1 : recent c e1' now) by (unfold recent in *; rewrite <- L2; exact Hrec).
+        pose proof (on_event_recent c e1' hs retr [] (e_toack e1) now Hfl Hw1 Hrec1 eq_refl eq_refl) as (K1 & K2 & K3 & K4).
+        rewrite S2. split; [exact K2|]. split; [exact K3|]. split; [lia|].
+        intros _. destruct K1 as [K1 | K1]; rewrite K1; [rewrite <- L2; now apply Hls | exact Hn1].
+    - destruct (finished_receive c e d now Ef) as (F1 & _ & (epo & fs & F3)).
+      cbv zeta in *. rewrite F3, has_hs_ack. unfold stage. rewrite F1, Ef.
+      split; [lia|]. split; [discriminate|]. split; [lia|]. discriminate. }
+  destruct (on_datagram c e d now) as [e1 o]. cbn [fst snd] in Hstep. destruct Hstep as (H1 & H2 & H3 & H4).
+  specialize (IH e1 Hrest H3 H4). destruct (run c e1 ins) as [e2 tr]. cbn [snd] in *.
+  unfold count_hs in *. cbn [filter snd]. destruct (has_hs o) eqn:Eo; cbn [length]; [specialize (H2 eq_refl); lia | lia].
+Qed.
